@@ -86,6 +86,8 @@ def run(ctx):
     ctx.rule("R15.f", "object level: serialize_parameters / deserialize_parameters loop over the same names with the same subset filter, call p.serialize / param[name].deserialize, and use plain json.dumps / json.loads", floor=5)
     ctx.rule("R15.g", "the value handed to the codec is the value attribute access gives: no reader of the per-instance value store conflates an explicit None with 'not set' "
                       "(one-argument .get(name) followed by an `is None` fallback)", floor=1)
+    ctx.rule("R15.i", "serialization is a function of the current value only: every return of serialize_parameter_value is the encoding, made in that call, of the value read in that call "
+                      "(cls.dumps(<parameter>.serialize(<value>))); writers of serializer state that outlives a call (class attributes, module globals) are listed for triage", floor=1)
     ctx.rule("R15.h", "the base codec is the identity: Parameter.serialize / Parameter.deserialize return their argument unchanged on every path (String, Selector, List, Dict, Boolean, Color rely on it; "
                       "any string, including 'null', is a legal String value)", floor=2)
     ctx.not_decided += ["value-level equality of the round trip (years < 1000, non-finite floats, int-vs-float) -- needs execution",
@@ -257,3 +259,55 @@ def run(ctx):
             bad = next((r for r in rets if not (isinstance(r.value, ast.Name) and r.value.id == arg)), g.node)
             ctx.fail("R15.h", g, bad, "the base Parameter.%s is no longer the identity (`%s`): types that inherit it (String, Selector, List, Dict, Boolean, Color) get values rewritten" % (
                 meth, norm(bad)[:60]), key="%s::not-identity" % g.qualname, input="String parameter holding the text 'null' deserializes to None")
+
+    # ---------------------------------------------------------------- R15.i
+    spv = ctx.repo.method(SER, "serialize_parameter_value")
+    vnames = {t.id for st in ast.walk(spv.node) if isinstance(st, ast.Assign) and "get_value_generator" in norm(st.value) for t in st.targets if isinstance(t, ast.Name)}
+    ctx.require(vnames, "serialize_parameter_value no longer reads the value with get_value_generator")
+
+    def fresh_encoding(e, depth=0):
+        if isinstance(e, ast.Name) and depth < 3:
+            defs = [st.value for st in ast.walk(spv.node) if isinstance(st, ast.Assign) and any(isinstance(t, ast.Name) and t.id == e.id for t in st.targets)]
+            return bool(defs) and all(fresh_encoding(d, depth + 1) for d in defs)
+        if isinstance(e, ast.Call) and norm(e.func) in ("cls.dumps", "json.dumps") and e.args:
+            inner = e.args[0]
+            if isinstance(inner, ast.Name) and depth < 3:
+                defs = [st.value for st in ast.walk(spv.node) if isinstance(st, ast.Assign) and any(isinstance(t, ast.Name) and t.id == inner.id for t in st.targets)]
+                inner = defs[0] if len(defs) == 1 else inner
+            return isinstance(inner, ast.Call) and isinstance(inner.func, ast.Attribute) and inner.func.attr == "serialize" and len(inner.args) == 1 \
+                and isinstance(inner.args[0], ast.Name) and inner.args[0].id in vnames
+        return False
+    rets = [st for st in ast.walk(spv.node) if isinstance(st, ast.Return)]
+    ctx.require(rets, "serialize_parameter_value has no return")
+    stale = [r for r in rets if not fresh_encoding(r.value)]
+    if stale:
+        ctx.fail("R15.i", spv, stale[0], "`%s` returns something other than the encoding, made in this call, of the value read in this call: a value mutated in place since an earlier call "
+                                         "(list.append, dict item assignment) is serialized as it was then" % norm(stale[0])[:80], key=spv.qualname + "::not-fresh-encoding",
+                 input="p.param.serialize_value('lst'); p.lst.append(3); p.param.serialize_value('lst') -> old text")
+    else:
+        ctx.ok("R15.i", spv, rets[0], "%d return(s), each cls.dumps(<parameter>.serialize(<value read in this call>))" % len(rets))
+    smod = ctx.repo.modules["param.serializer"] if hasattr(ctx.repo, "modules") and "param.serializer" in ctx.repo.modules else None
+    n_fn, writers = 0, []
+    for g in ctx.repo.all_funcs("param.serializer"):
+        n_fn += 1
+        for a in ast.walk(g.node):
+            if isinstance(a, ast.Global):
+                writers.append((g, a, "global " + ", ".join(a.names)))
+            tgt = None
+            if isinstance(a, (ast.Assign, ast.AugAssign)):
+                for t in (a.targets if isinstance(a, ast.Assign) else [a.target]):
+                    base = t.value if isinstance(t, ast.Subscript) else t
+                    if isinstance(base, ast.Attribute) and isinstance(base.value, ast.Name) and base.value.id in ("cls", "JSONSerialization", "Serialization"):
+                        tgt = t
+            if isinstance(a, ast.Call) and isinstance(a.func, ast.Attribute) and a.func.attr in ("setdefault", "update", "append", "add", "pop", "clear", "__setitem__", "extend", "insert"):
+                base = a.func.value
+                if isinstance(base, ast.Attribute) and isinstance(base.value, ast.Name) and base.value.id in ("cls", "JSONSerialization", "Serialization"):
+                    tgt = a
+            if tgt is not None:
+                writers.append((g, a, norm(tgt)[:70]))
+    if writers:
+        # not a violation by itself (a memo keyed by immutable content would be harmless): reported for triage only
+        g, a, what = writers[0]
+        ctx.info("R15.i", g, a, "`%s` writes serializer state that outlives the call (harmless only if no result depends on it)" % what)
+    else:
+        ctx.ok("R15.i", SER, None, "%d functions of param/serializer.py: none writes a class attribute or a module global" % n_fn)
